@@ -64,44 +64,69 @@ def check(rep, tier):
         except Exception as e:
             rep.violation("crash %s" % type(e).__name__, "Snowflake.run raises %r for %s" % (e, cfg), dict(config=cfg, error=repr(e)))
             continue
-        S, N, n = r["S"], r["N"], r["nsteps"]
-        dec = fr.decisions(r)
-        G = c09.geometric(cfg["arr"], *cfg["shape"])
-        ev = [int(k) for k in np.nonzero(dec.any(axis=1))[0] if k < n - 1]
-        some = sorted(set(ev[:40] + [0, 1, n - 2] + rng.sample(range(n - 1), min(n - 1, 40))))
-        some = [k for k in some if 0 <= k < n - 1]
-        rep.count(cfg["arr"]); rep.count(cfg["initIce"]); rep.count("sigma_rel>0" if cfg["k"]["s_sigma_rel"] > 0 else "sigma_rel=0")
-        rep.count("nucleation-steps", len(ev))
-        # oracle on every stored step of the run (cheap)
-        for k in range(n - 1):
-            T2, s2, q = numpy_step(S, G, r["hshelf"], r["shelf"][k], r["XT"][:, k], r["XS"][:, k], dec[k])
-            Tl = r["XT"][:, k] + q / S.const["hl"] * S.dt
-            wrongjump = dec[k] & ~(Tl < S.const["T_eq_l"])
-            if wrongjump.any():
-                i = int(np.argmax(wrongjump))
-                rep.violation("jump-not-supercooled", "run %s step %d vial %d jumps to sigma=%r although its temperature %r is not below T_eq_l=%r" % (
-                    cfg["shape"], k, i, r["XS"][i, k + 1], Tl[i], S.const["T_eq_l"]), dict(config=cfg, step=k, vial=i))
-                break
-            bad = ~(np.isclose(T2, r["XT"][:, k + 1], rtol=1e-9, atol=1e-9) & np.isclose(s2, r["XS"][:, k + 1], rtol=1e-9, atol=1e-11))
-            if bad.any():
-                i = int(np.argmax(bad))
-                kind = "solid" if r["XS"][i, k] != 0 else ("jump-%s" % cfg["initIce"] if dec[k][i] else "liquid")
-                rep.violation("step-%s" % kind,
-                              "run %s step %d vial %d (%s): implementation goes (T,sigma)=(%r,%r)->(%r,%r), the published balance gives (%r,%r)" % (
-                                  cfg["shape"], k, i, kind, r["XT"][i, k], r["XS"][i, k], r["XT"][i, k + 1], r["XS"][i, k + 1], T2[i], s2[i]),
-                              dict(config=cfg, step=k, vial=i, kind=kind))
-                break
-        for k in some:
-            nt = bool(dec[k].any() or (r["XS"][:, k] != 0).any())
-            rep.case("%d:%d" % (ri, k), nontrivial=nt)
-        if used + len(some) * N <= cap:
-            used += len(some) * N
-            step_cases.append(fr.coq_step_case(r, some))
-            meta.append(cfg)
-            if n * N <= 12000:
-                run_cases.append((cfg, fr.coq_run_case(r)))
-        if len(rep.samples) < 4:
-            rep.samples.append(dict(config={k: v for k, v in cfg.items() if k != "over"}, steps_checked=len(some), nucleation_steps=len(ev)))
+        todo = [(cfg, r, "")]
+        shp = cfg["shape"]
+        if ri % 4 == 1 and shp[0] != shp[1]:
+            # history on one object: the batch is re-shaped (same number of vials) and run again
+            shp2 = (shp[1], shp[0], shp[2])
+            try:
+                def reshape(S_, shp2=shp2):
+                    S_.N_vials = shp2
+                r2 = fr.rerun(r, reshape)
+                todo.append((dict(cfg, shape=shp2, history="run %s, N_vials = %s, run" % (shp, shp2)), r2, "after re-shaping the same object: "))
+                rep.count("reshape-history")
+            except Exception as e:
+                rep.violation("crash %s" % type(e).__name__, "re-shaped Snowflake.run raises %r for %s -> %s" % (e, cfg, shp2), dict(config=cfg, error=repr(e)))
+        for cfg, r, pre in todo:
+          nv0 = len(rep.violations)
+          for _once in (0,):
+            S, N, n = r["S"], r["N"], r["nsteps"]
+            dec = fr.decisions(r)
+            G = c09.geometric(cfg["arr"], *cfg["shape"])
+            ev = [int(k) for k in np.nonzero(dec.any(axis=1))[0] if k < n - 1]
+            some = sorted(set(ev[:40] + [0, 1, n - 2] + rng.sample(range(n - 1), min(n - 1, 40))))
+            some = [k for k in some if 0 <= k < n - 1]
+            rep.count(cfg["arr"]); rep.count(cfg["initIce"]); rep.count("sigma_rel>0" if cfg["k"]["s_sigma_rel"] > 0 else "sigma_rel=0")
+            rep.count("nucleation-steps", len(ev))
+            # the shelf coefficients used are the configured ones: the (clipped, non-negative) k['shelf'] times the vial's base area
+            ksh = np.broadcast_to(np.asarray(S.k["shelf"], dtype=float), (N,)) if "shelf" in S.k else None
+            if (r["hshelf"] < 0).any() or (ksh is not None and not np.allclose(r["hshelf"], ksh * S.const["A"], rtol=1e-12, atol=0)):
+                i = int(np.argmax((r["hshelf"] < 0) | (ksh is not None and ~np.isclose(r["hshelf"], ksh * S.const["A"], rtol=1e-12, atol=0))))
+                rep.violation("shelf-coefficient", "run %s: vial %d exchanges heat with the shelf with H_shelf=%r W/K, the configured (clipped) coefficient gives %r" % (
+                    cfg["shape"], i, r["hshelf"][i], None if ksh is None else ksh[i] * S.const["A"]), dict(config=cfg, vial=i))
+            # oracle on every stored step of the run (cheap)
+            for k in range(n - 1):
+                T2, s2, q = numpy_step(S, G, r["hshelf"], r["shelf"][k], r["XT"][:, k], r["XS"][:, k], dec[k])
+                Tl = r["XT"][:, k] + q / S.const["hl"] * S.dt
+                wrongjump = dec[k] & ~(Tl < S.const["T_eq_l"])
+                if wrongjump.any():
+                    i = int(np.argmax(wrongjump))
+                    rep.violation("jump-not-supercooled", "run %s step %d vial %d jumps to sigma=%r although its temperature %r is not below T_eq_l=%r" % (
+                        cfg["shape"], k, i, r["XS"][i, k + 1], Tl[i], S.const["T_eq_l"]), dict(config=cfg, step=k, vial=i))
+                    break
+                bad = ~(np.isclose(T2, r["XT"][:, k + 1], rtol=1e-9, atol=1e-9) & np.isclose(s2, r["XS"][:, k + 1], rtol=1e-9, atol=1e-11))
+                if bad.any():
+                    i = int(np.argmax(bad))
+                    kind = "solid" if r["XS"][i, k] != 0 else ("jump-%s" % cfg["initIce"] if dec[k][i] else "liquid")
+                    rep.violation("step-%s" % kind,
+                                  "run %s step %d vial %d (%s): implementation goes (T,sigma)=(%r,%r)->(%r,%r), the published balance gives (%r,%r)" % (
+                                      cfg["shape"], k, i, kind, r["XT"][i, k], r["XS"][i, k], r["XT"][i, k + 1], r["XS"][i, k + 1], T2[i], s2[i]),
+                                  dict(config=cfg, step=k, vial=i, kind=kind))
+                    break
+            for k in some:
+                nt = bool(dec[k].any() or (r["XS"][:, k] != 0).any())
+                rep.case("%d%s:%d" % (ri, "r" if pre else "", k), nontrivial=nt)
+            if used + len(some) * N <= cap:
+                used += len(some) * N
+                step_cases.append(fr.coq_step_case(r, some))
+                meta.append(cfg)
+                if n * N <= 12000:
+                    run_cases.append((cfg, fr.coq_run_case(r)))
+            if len(rep.samples) < 4:
+                rep.samples.append(dict(config={k: v for k, v in cfg.items() if k != "over"}, steps_checked=len(some), nucleation_steps=len(ev)))
+          for v in rep.violations[nv0:]:
+              if pre:
+                  v["what"] = pre + v["what"]
     rc, out = common.coq_eval("c01_0", HEAD % (coq_list(step_cases), coq_list(c for _, c in run_cases)), timeout=1500)
     blocks = common.eval_blocks(out)
     if rc != 0 or len(blocks) != 2:
